@@ -144,6 +144,83 @@ def _s(broker):
     return lambda: history(broker)
 
 
+# ----------------------------------------------------------------------------- exhaustive cancellation points over a pool of pre-states
+
+ENQ = {"op": "enq", "q": "qa", "topic": "t0", "prio": 5, "delay": None, "payload": "p", "client": "p0"}
+
+
+def prestates() -> list:
+    n = lambda **kw: {**ENQ, **kw}  # noqa: E731
+    start = lambda cat="NORMAL", mu=None, client="c0": {"op": "start", "q": "qa", "client": client, "topics": None, "category": cat,  # noqa: E731
+                                                       "max_unacked": mu}
+    cons = {"op": "consume", "c": 0, "patience": 1.2}
+    far = {"kind": "net", "delta": 25.0}
+    return [
+        ("normal-1", [n(), start(), cons]),
+        ("normal-3-second-held", [n(), n(payload="b"), n(payload="c"), start(mu=1), cons, dict(cons)]),
+        ("normal-prio0", [n(prio=0), start(), cons]),
+        ("normal-prio9-prefetch2", [n(prio=9), n(prio=9), start(mu=2), cons]),
+        ("delayed-taken-via-delayed", [n(delay=far), start("DELAYED"), cons]),
+        ("due-delayed-taken-via-normal", [n(delay={"kind": "net", "delta": -1.0}), {"op": "advance", "dt": 1.2}, start(), cons]),
+        ("dead-taken-via-dead", [n(), start(), cons, {"op": "nack", "c": 0, "i": 0}, start("DEAD"), {"op": "consume", "c": 1, "patience": 1.2}]),
+        ("other-client", [n(client="c0"), start(client="c1"), cons]),
+        ("with-waiting-behind", [n(), n(payload="w1"), n(delay=far), start(mu=1), cons]),
+        ("retry-params", [n(retries=3), start(), cons]),
+    ]
+
+
+def actions() -> list:
+    return [
+        ("ack", {"op": "ack", "c": 0, "i": 0}),
+        ("nack", {"op": "nack", "c": 0, "i": 0}),
+        ("reject", {"op": "reject", "c": 0, "i": 0}),
+        ("requeue", {"op": "requeue", "c": 0, "i": 0, "payload": "new", "delay": None}),
+        ("requeue-delayed", {"op": "requeue", "c": 0, "i": 0, "payload": "new", "delay": {"kind": "net", "delta": 3.0}}),
+        ("enqueue", {**ENQ, "payload": "extra"}),
+        ("enqueue-delayed", {**ENQ, "payload": "extra", "delay": {"kind": "net", "delta": 3.0}}),
+        ("consume", {"op": "consume", "c": 0, "patience": 0.5}),
+        ("finish", None),
+    ]
+
+
+MAX_K = 24
+
+
+def cancel_cases(broker: str):
+    for pname, pre in prestates():
+        for aname, act in actions():
+            if act is None:
+                continue
+            for k in range(0, MAX_K + 1):
+                ops = [dict(o) for o in pre]
+                if aname == "consume":
+                    ops.append({**ENQ, "payload": "later"})
+                ops.append({**act, "cancel_after": k})
+                ops += [{"op": "advance", "dt": 0.3}, {"op": "consume", "c": 0, "patience": 0.5}, {"op": "advance", "dt": 1.5}]
+                yield {"broker": broker, "seed": 0, "ops": ops, "pre": pname, "action": aname, "k": k,
+                       "lat": {"p0": [], "c0": [0.0, 0.001] if k % 2 else [], "c1": []} if broker != "mem" else None}
+
+
+def enumerate_cancel(broker: str):
+    def gen(tier: str, shard: int, nshards: int):
+        for i, c in enumerate(cancel_cases(broker)):
+            if i % nshards == shard:
+                yield c
+    return gen
+
+
+def cancel_strategy(broker: str):
+    cases = list(cancel_cases(broker))
+    return lambda: st.sampled_from(range(len(cases))).map(lambda i: cases[i])
+
+
+def run_cancel(case: dict) -> Outcome:
+    out = run(case)
+    out.classes = [c for c in out.classes if not c.startswith("did-")]
+    out.cls("pre-" + case.get("pre", "?"), "action-" + case.get("action", "?"))
+    return out
+
+
 CHECK = Check(
     pid="C01",
     level="fault_enumeration",
@@ -169,5 +246,8 @@ CHECK = Check(
         SubCheck("mem", _s("mem"), run, quick=120, thorough=3000),
         SubCheck("redis", _s("redis"), run, quick=80, thorough=2000),
         SubCheck("amqp", _s("amqp"), run, quick=80, thorough=2000),
+        SubCheck("cancel-mem", cancel_strategy("mem"), run_cancel, quick=40, thorough=0, enumerate_cases=enumerate_cancel("mem"), exhaustive=True),
+        SubCheck("cancel-redis", cancel_strategy("redis"), run_cancel, quick=40, thorough=0, enumerate_cases=enumerate_cancel("redis"), exhaustive=True),
+        SubCheck("cancel-amqp", cancel_strategy("amqp"), run_cancel, quick=40, thorough=0, enumerate_cases=enumerate_cancel("amqp"), exhaustive=True),
     ],
 )
